@@ -287,8 +287,9 @@ pub fn exec_case(case: &CliCase, ctr: &mut Ctr) -> Result<Exec, String> {
     let sb = sandbox_dir();
     let out = run_cli(case, case.entropy, &sb)?;
     let f = &out.fired;
-    if f.getrandom_seeded == 0 && expected.is_some() && out.exit == Some(0) {
-        return Err("shim not live: the child rendered without asking the shim for entropy".into());
+    if f.calls == 0 {
+        // every run opens its input through the interposed open: an empty report means LD_PRELOAD did not take
+        return Err("shim not live: the child made no intercepted call".into());
     }
     for (k, n) in [
         ("fault.open_errno_input", f.input_open_err.len() as u64),
